@@ -92,8 +92,19 @@ def evalCoef (env : Nat → Option Arr) (dim : Nat) : Coef → Option CoefV
     if w.all (· == true) then some (.arr (w.foldl (fun y _ => restrictA dim y) a)) else none
 
 /-- `Jacobi.__call__(x0, rhs, h)` computed from its record -/
+def normSq (a : Arr) : Rat := a.data.foldl (fun s v => s + v * v) 0
+
+/-- the tolerance loop of `Jacobi.__call__`: `x_new = sweep(x)`; `err = ‖x_new − x‖ / ‖x0‖`; stop (returning `x`, not
+`x_new`) when `err < tol`; compared through squares (`‖x_new − x‖² < tol²·‖x0‖²`); for `x0 = 0` numpy's `nan`/`inf`
+never satisfies the test -/
+def tolLoop (sweep : Arr → Arr) (tol : Rat) (x0 : Arr) : Nat → Arr → Arr
+  | 0, x => x
+  | n + 1, x =>
+    let xn := sweep x
+    if normSq x0 ≠ 0 ∧ 0 ≤ tol ∧ normSq (Arr.map2 (· - ·) xn x) < tol * tol * normSq x0 then x
+    else tolLoop sweep tol x0 n xn
+
 def evalJac (env : Nat → Option Arr) (r : JacRun) (x0 rhs : Arr) : Option Arr := do
-  if r.tol.isSome then none
   let mass ← evalCoef env r.diag.p.dim r.diag.p.mass
   let diff ← evalCoef env r.diag.p.dim r.diag.p.diff
   let h2 := r.diag.h * r.diag.h
@@ -101,7 +112,9 @@ def evalJac (env : Nat → Option Arr) (r : JacRun) (x0 rhs : Arr) : Option Arr 
   let scaled := Arr.tab rhs.shape fun idx => diag.get idx / (diff.at idx / h2)
   let rhsS := Arr.map2 (· / ·) rhs diag
   let sweep (x : Arr) : Arr := Arr.map2 (· + ·) rhsS (Arr.map2 (· / ·) (neighbours x) scaled)
-  some ((List.range r.maxiter).foldl (fun x _ => sweep x) x0)
+  match r.tol with
+  | none => some ((List.range r.maxiter).foldl (fun x _ => sweep x) x0)
+  | some tol => some (tolLoop sweep tol x0 r.maxiter x0)
 
 /-- `MG.operator(x, h)` = `mass·x − diff·laplace(x, dim, h)` -/
 def operatorA (env : Nat → Option Arr) (p : Params) (h : Rat) (x : Arr) : Option Arr := do
@@ -147,6 +160,35 @@ def evalH1 (env : Nat → Option Arr) (dim : Nat) (omega : Coef) (solves : List 
   (solves.zipIdx).mapM fun (es, c) =>
     let x := channel dim img c
     evalEvents env (es.length + 1) es x (Arr.tab x.shape fun idx => om.at idx * x.get idx)
+
+/-- `_shrink(x, k) = max(|x| − k, 0) · sign(x)` -/
+def shrinkR (x k : Rat) : Rat :=
+  let a := if x < 0 then -x else x
+  let m := if a - k < 0 then 0 else a - k
+  if x < 0 then -m else if x = 0 then 0 else m
+
+/-- `split_bregman_tvd` (anisotropic, no tolerance, no adaptivity) replayed from its record: per Bregman iteration
+`rhs = omega·img + Σ_i forward_diff(ell·(b_i − d_i), i)`, one solver call `x0 = img_iter`, then per axis
+`dub = backward_diff(img_new, j) + b_j; d_j = shrink(dub, mu/ell); b_j = dub − d_j` -/
+def evalSB (env : Nat → Option Arr) (dim : Nat) (mu : Coef) (ell omega : Coef) (solves : List (List MGEvent)) (img : Arr) :
+    Option Arr := do
+  let om ← evalCoef env dim omega
+  let el ← evalCoef env dim ell
+  let m ← evalCoef env dim mu
+  let zero := Arr.zeros img.shape
+  let init : Arr × List Arr × List Arr := (img, List.replicate dim zero, List.replicate dim zero)
+  let fin ← solves.foldlM (fun (st : Arr × List Arr × List Arr) es => do
+    let (it, ds, bs) := st
+    let base := Arr.tab img.shape fun idx => om.at idx * img.get idx
+    let rhs := (List.range dim).foldl (fun acc i =>
+      let diff := Arr.tab img.shape fun idx => el.at idx * ((bs.getD i zero).get idx - (ds.getD i zero).get idx)
+      Arr.map2 (· + ·) acc (fdiff i 1 diff)) base
+    let xn ← evalEvents env (es.length + 1) es it rhs
+    let dubs := (List.range dim).map fun j => Arr.map2 (· + ·) (bdiff j 1 xn) (bs.getD j zero)
+    let ds' := dubs.map fun dub => Arr.tab img.shape fun idx => shrinkR (dub.get idx) (m.at idx / el.at idx)
+    let bs' := (dubs.zip ds').map fun (dub, dn) => Arr.map2 (· - ·) dub dn
+    pure (xn, ds', bs')) init
+  pure fin.1
 
 /-- the numerical result of an operation, from its record and its array arguments (`x0`, `rhs` for the solvers;
 the image for a regulariser) -/
